@@ -1,1 +1,11 @@
-
+import SphericalVerif.Props.C06
+#print axioms C06.truncators
+#print axioms C06.mul_meta
+#print axioms C06.mul_spellings_agree
+#print axioms C06.scalar_mul_keeps_meta
+#print axioms C06.per_mode_mul_rejected
+#print axioms C06.div_scalar_keeps_meta
+#print axioms C06.helper_in_bounds
+#print axioms C06.truncation_drops_only_high_ell
+#print axioms C06.truncated_product_is_cut
+#print axioms C06.helper_entry
